@@ -7,9 +7,12 @@ pub fn scenario(seed: u64, idx: u64) -> Scenario {
     let mut sc = Scenario::base("C07", "pool", idx);
     sc.engine = Engine::Pool;
     sc.sched = pick_sched(&mut rng);
-    let size = rng.range(1, 8);
+    // the property quantifies over sizes 1..8; now and then a pool as large as the shipped
+    // default of 200 threads and around powers of two
+    let size = if rng.chance(1, 60) { *rng.pick(&[16usize, 64, 200, 255, 256, 257]) } else { rng.range(1, 8) };
+    let big = size > 8;
     let submitters = rng.range(1, 2);
-    let total = rng.range(0, 4 * size);
+    let total = if big { rng.range(0, size + 8) } else { rng.range(0, 4 * size) };
     let mut tasks: Vec<TaskKind> = vec![];
     // one of three workload shapes: plain, rendezvous of N, one slow (gated) task
     match rng.below(3) {
